@@ -492,8 +492,8 @@ spif_mbuff_index(spif_mbuff_t self, spif_uint8_t c)
     spif_memidx_t i;
 
     ASSERT_RVAL(!SPIF_MBUFF_ISNULL(self), ((spif_memidx_t) -1));
-    for (tmp = self->buff, i = 0; ((int) *tmp != (int) (c)) && (i < self->len); i++, tmp++);
-    return (spif_memidx_t) ((spif_long_t) tmp - (spif_long_t) self->buff);
+    for (tmp = self->buff, i = 0; (i < self->len) && ((int) *tmp != (int) (c)); i++, tmp++);
+    return i;
 }
 
 spif_cmp_t
@@ -563,16 +563,15 @@ spif_mbuff_reverse(spif_mbuff_t self)
 spif_memidx_t
 spif_mbuff_rindex(spif_mbuff_t self, spif_uint8_t c)
 {
-    spif_byteptr_t tmp;
+    spif_memidx_t i;
 
     ASSERT_RVAL(!SPIF_MBUFF_ISNULL(self), ((spif_memidx_t) -1));
-    for (tmp = self->buff + self->len - 1; (*tmp != c) && (tmp >= self->buff); tmp--);
-
-    if ((tmp == self->buff) && (*tmp != c)) {
-        return (spif_memidx_t) (self->len);
-    } else {
-        return (spif_memidx_t) ((spif_long_t) tmp - (spif_long_t) self->buff);
+    for (i = self->len; i > 0; i--) {
+        if (self->buff[i - 1] == c) {
+            return (i - 1);
+        }
     }
+    return (spif_memidx_t) (self->len);
 }
 
 spif_bool_t
